@@ -44,6 +44,61 @@ pub fn image(k: u16, min: f64, max: f64, cs: &[(f64, u64)], reverse: bool) -> Ve
     b
 }
 
+/// the C++ float flavour of the current format: f32 min/max/means, u32 weights, f32 buffered values
+pub fn image_f32(k: u16, min: f64, max: f64, cs: &[(f64, u64)], buffered: &[f64]) -> Vec<u8> {
+    let mut b = vec![2, 1, 20];
+    b.extend_from_slice(&k.to_le_bytes());
+    b.push(0);
+    b.extend_from_slice(&0u16.to_le_bytes());
+    b.extend_from_slice(&(cs.len() as u32).to_le_bytes());
+    b.extend_from_slice(&(buffered.len() as u32).to_le_bytes());
+    b.extend_from_slice(&(min as f32).to_le_bytes());
+    b.extend_from_slice(&(max as f32).to_le_bytes());
+    for (m, w) in cs {
+        b.extend_from_slice(&(*m as f32).to_le_bytes());
+        b.extend_from_slice(&(*w as u32).to_le_bytes());
+    }
+    for v in buffered {
+        b.extend_from_slice(&(*v as f32).to_le_bytes());
+    }
+    b
+}
+
+/// current double format with buffered values
+pub fn image_buf(k: u16, min: f64, max: f64, cs: &[(f64, u64)], buffered: &[f64]) -> Vec<u8> {
+    let mut b = image(k, min, max, cs, false);
+    b[12..16].copy_from_slice(&(buffered.len() as u32).to_le_bytes());
+    for v in buffered {
+        b.extend_from_slice(&v.to_le_bytes());
+    }
+    b
+}
+
+/// reference-implementation (Dunning) encodings, big-endian: type 1 = doubles, type 2 = floats
+pub fn image_compat(ty: u32, k: u16, min: f64, max: f64, cs: &[(f64, u64)]) -> Vec<u8> {
+    let mut b = vec![];
+    b.extend_from_slice(&ty.to_be_bytes());
+    b.extend_from_slice(&min.to_be_bytes());
+    b.extend_from_slice(&max.to_be_bytes());
+    if ty == 1 {
+        b.extend_from_slice(&(k as f64).to_be_bytes());
+        b.extend_from_slice(&(cs.len() as u32).to_be_bytes());
+        for (m, w) in cs {
+            b.extend_from_slice(&(*w as f64).to_be_bytes());
+            b.extend_from_slice(&m.to_be_bytes());
+        }
+    } else {
+        b.extend_from_slice(&(k as f32).to_be_bytes());
+        b.extend_from_slice(&0u32.to_be_bytes());
+        b.extend_from_slice(&(cs.len() as u16).to_be_bytes());
+        for (m, w) in cs {
+            b.extend_from_slice(&(*w as f32).to_be_bytes());
+            b.extend_from_slice(&(*m as f32).to_be_bytes());
+        }
+    }
+    b
+}
+
 /// centroid list decoded from an image in the current double format
 pub fn decode(b: &[u8]) -> (f64, f64, Vec<(f64, u64)>) {
     let flags = b[5];
@@ -145,8 +200,54 @@ pub fn replay(args: &Args) {
             }
         }
         bad.truncate(4);
-        out.ev(json!({"op":"DLoad","spec":{"min":min,"max":max,"cs":d["cs"]},"k":k,"loaded":ok,"bad":bad,"nq":nq}));
+        out.ev(json!({"op":"DLoad","variant":"double","spec":{"min":min,"max":max,"cs":d["cs"]},"k":k,"loaded":ok,"bad":bad,"nq":nq}));
         n += 1;
+        // other encodings of the same digest: every grid answer must be bit-identical to the double image's
+        let total: u64 = cs.iter().map(|c| c.1).sum();
+        if total > 1 && li % 4 == 0 {
+            let reference = TDigestMut::deserialize(&img, false);
+            let grid_v: Vec<f64> = d["vs"].as_array().unwrap().iter().map(|v| rat(v).unwrap()).collect();
+            let grid_q: Vec<f64> = d["qs"].as_array().unwrap().iter().map(|v| rat(v).unwrap()).collect();
+            let answers = |td: &mut TDigestMut| -> Vec<u64> {
+                let mut a: Vec<u64> = grid_v.iter().map(|&v| td.rank(v).unwrap().to_bits()).collect();
+                a.extend(grid_q.iter().map(|&q| td.quantile(q).unwrap().to_bits()));
+                a.push(td.total_weight());
+                a.push(td.min_value().unwrap().to_bits());
+                a.push(td.max_value().unwrap().to_bits());
+                a
+            };
+            let buffered = [min, max, (min + max) / 2.0];
+            let variants: Vec<(&str, Vec<u8>, bool, usize)> = vec![
+                ("f32", image_f32(k, min, max, &cs, &[]), true, 0),
+                ("compat-double", image_compat(1, k, min, max, &cs), false, 0),
+                ("compat-float", image_compat(2, k, min, max, &cs), false, 0),
+                ("double-buffered", image_buf(k, min, max, &cs, &buffered), false, 3),
+                ("f32-buffered", image_f32(k, min, max, &cs, &buffered), true, 3),
+            ];
+            if let Ok(mut refd) = reference {
+                for (name, vimg, is_f32, nbuf) in variants {
+                    let r = catch(std::panic::AssertUnwindSafe(|| {
+                        let mut want = TDigestMut::deserialize(&img, false).unwrap();
+                        for v in buffered.iter().take(nbuf) {
+                            want.update(*v);
+                        }
+                        let want_a = answers(&mut want);
+                        match TDigestMut::deserialize(&vimg, is_f32) {
+                            Ok(mut got) => (true, answers(&mut got) == want_a, String::new()),
+                            Err(e) => (false, false, format!("{e:?}")),
+                        }
+                    }));
+                    let _ = &mut refd;
+                    let (loaded, same, err) = match r {
+                        Ok(x) => x,
+                        Err(p) => (false, false, p),
+                    };
+                    let bad: Vec<Value> = if loaded && same { vec![] } else { vec![json!({"what":"variant","variant":name,"err":err})] };
+                    out.ev(json!({"op":"DLoad","variant":name,"spec":{"min":min,"max":max,"cs":d["cs"]},"k":k,"loaded":loaded,"bad":bad,"nq":grid_v.len() + grid_q.len()}));
+                    n += 1;
+                }
+            }
+        }
     }
     let (runs, events) = out.finish();
     println!("{}", json!({"runs":runs,"events":events,"digests":n}));
